@@ -135,6 +135,28 @@ func TestVerifC09(t *testing.T) {
 		}
 	}
 
+	limOf := func(begin string) (lim [3]int64) {
+		for _, kv := range strings.Fields(begin) {
+			p := strings.SplitN(kv, "=", 2)
+			if len(p) == 2 {
+				n, _ := strconv.ParseInt(p[1], 10, 64)
+				switch p[0] {
+				case "maxbytes":
+					lim[0] = n
+				case "maxmsgs":
+					lim[1] = n
+				case "maxage":
+					lim[2] = n
+				}
+			}
+		}
+		return
+	}
+	if rc := vReplayCase(t); rc == nil {
+		for _, c := range vCorpus(t, "C09") {
+			check(c, limOf(c[0]))
+		}
+	}
 	if rc := vReplayCase(t); rc != nil {
 		var lim [3]int64
 		for _, kv := range strings.Fields(rc[0]) {
@@ -165,10 +187,10 @@ func TestVerifC09(t *testing.T) {
 		// decide limits around plausible totals
 		var lim [3]int64
 		if rnd.Intn(3) != 0 {
-			lim[0] = int64(1 + rnd.Intn(nApp*120))
+			lim[0] = int64(1 + rnd.Intn(nApp*700))
 		}
 		if rnd.Intn(3) != 0 {
-			lim[1] = int64(1 + rnd.Intn(nApp*2+1))
+			lim[1] = int64(1 + rnd.Intn(nApp*3+1))
 		}
 		if rnd.Intn(3) != 0 {
 			lim[2] = 1 + int64(rnd.Intn(1000))
